@@ -31,6 +31,34 @@ macro_rules! def_token {
     }};
 }
 
+/// How deep the translator follows nested markup. Every level costs a large stack frame, and a
+/// stack that overflows takes the whole process down (it cannot be caught like a panic).
+const MAX_NESTING: usize = 64;
+
+thread_local! {
+    static NESTING: std::cell::Cell<usize> = const { std::cell::Cell::new(0) };
+}
+
+/// Counts one level of [`TypstTranslator::parse_expr`] for as long as it lives.
+struct NestingGuard;
+
+impl NestingGuard {
+    fn enter() -> Self {
+        NESTING.with(|n| n.set(n.get() + 1));
+        Self
+    }
+
+    fn too_deep() -> bool {
+        NESTING.with(|n| n.get() > MAX_NESTING)
+    }
+}
+
+impl Drop for NestingGuard {
+    fn drop(&mut self) {
+        NESTING.with(|n| n.set(n.get() - 1));
+    }
+}
+
 /// Combine the results of multiple parsing calls.
 macro_rules! merge {
     [$($inner:expr),*] => {
@@ -134,6 +162,13 @@ impl<'a> TypstTranslator<'a> {
             ($a:expr, $kind:expr) => {
                 def_token!(self.doc, $a, $kind, offset)
             };
+        }
+
+        // Text like `*a _b *a _b ...` (unclosed markup, as it is while being typed or pasted)
+        // nests one level per marker: past a bound the rest is one unlintable stretch.
+        let _nesting = NestingGuard::enter();
+        if NestingGuard::too_deep() {
+            return token!(expr, TokenKind::Unlintable);
         }
 
         /// Quickly recurse without needing to pass in local variables.
